@@ -156,6 +156,7 @@ def explore(c, root=(), depth_limit=None):
             depth += 1
         res = r.result()
         res['cut'] = cut
+        res['cfg'] = '%s/%s' % (c['name'], c['variant'])
         res['body'] = res['sched'][len(c['prefix']):]
         yield res
         while stack and stack[-1][1] + 1 >= stack[-1][0]:
@@ -235,6 +236,8 @@ def judge_batch(acc, results, family):
     for r, ans in zip(results, answers):
         acc.n += 1
         acc.count('family.' + family)
+        if r.get('cfg'):
+            acc.count('cfg.' + r['cfg'])
         acc.count('variant.' + r['variant'])
         sched = r['sched']
         # ---- oracle (implementation only)
@@ -381,12 +384,9 @@ def families(ctx):
     out = []
     for v in ('threads', 'asyncio'):
         big = th or v == 'asyncio'
-        # producer / consumer hand-off, connected throughout
-        na = 3 if big else 2
-        for a in range(0, na + 1):
-            for k in range(1, na + 1):
-                if v == 'threads' and not th and a + k > 4:
-                    continue
+        # producer / consumer hand-off, connected throughout: every interleaving up to 3 arrivals x 3 receives
+        for a in range(0, 4):
+            for k in range(1, 4):
                 out.append(('handoff', cfg('handoff %dx%d' % (a, k), v, a, ['Sr'] * k)))
         # timeouts
         for a, ops, tmo in ([(1, ['St', 'St'], 2), (2, ['St', 'Sr'], 1), (2, ['St', 'St', 'St'], 2)] if big else
@@ -408,6 +408,14 @@ def families(ctx):
             out.append(('send', cfg('send %s fresh' % op, v, 0, [op], prefix=(), conn=('Kc', 'Kd', 'Kc'), fails=2)))
         # the start step floats too (validates that issuing the call at once loses nothing)
         out.append(('floating-start', cfg('float 2x2', v, 2, ['Sr', 'St'], tmo=1, float_start=True)))
+        if v == 'asyncio':
+            # await-point interleavings are few: go further
+            out.append(('handoff', cfg('handoff 5x5', v, 5, ['Sr'] * 5)))
+            out.append(('handoff', cfg('handoff 4x4 timed', v, 4, ['St'] * 4, tmo=2)))
+            out.append(('floating-start', cfg('float 3x3', v, 3, ['Sr', 'St', 'Sr'], tmo=1, float_start=True)))
+            na = 3 if th else 2
+            out.append(('connection', cfg('conn KdKcKdKf %d SrStSr floating' % na, v, na, ['Sr', 'St', 'Sr'],
+                                          tmo=1, conn=('Kd', 'Kc', 'Kd', 'Kf'), float_start=True)))
     return out
 
 
@@ -436,6 +444,12 @@ def run(ctx):
         'overtake a wake-up that is already queued (the tie "deadline reached in the same loop iteration as '
         'the set()" is outside the model)',
         'one producer thread (arrivals are appended in the order the handler is invoked)'])
+    if ctx.thorough:
+        ok, out = C.leanchecker(['Sio.Props.C19', 'Sio.Lemmas.Simple', 'Sio.Model.Simple'])
+        ctx.coverage['leanchecker'] = 'ok' if ok else out
+        if not ok:
+            ctx.violation('proof', 'leanchecker rejects the compiled proofs: ' + out[-500:],
+                          {'theorem_or_build': 'leanchecker Sio.Props.C19'}, no_input=True)
     ABORT.clear()
     C.build_driver('simple')        # once, before forking (the workers inherit the fact)
     t0 = time.time()
@@ -445,12 +459,10 @@ def run(ctx):
     try:
         tasks = []
         fams = families(ctx)
-        exhaustive = {}
         for family, c in fams:
             depth = 7 if c['variant'] == 'threads' else 4
             for res in explore(c, depth_limit=depth):
                 tasks.append(('tree', c, tuple(res['body']), family))
-            exhaustive[c['name'] + '/' + c['variant']] = 0
         # ---- sampled schedules beyond the bounds (tokens that cannot move included on purpose)
         n_samp = ctx.scale(600, 12000)
         for v in ('threads', 'asyncio'):
@@ -495,7 +507,8 @@ def run(ctx):
     for sig, (text, rep) in total.known.items():
         ctx.known(sig, text + ' — schedule (%s): %s' % (rep['variant'], ' '.join(rep['sched'])))
     for k, v in total.counters.items():
-        ctx.count(k, v)
+        if not k.startswith('cfg.'):
+            ctx.count(k, v)
     n_tree = sum(v for k, v in total.counters.items() if k.startswith('family.') and
                  k not in ('family.sampled', 'family.witness'))
     ctx.coverage.update({
@@ -508,13 +521,15 @@ def run(ctx):
                 '(depth-first enumeration). non-trivial = receive() parked at least once AND at least one '
                 'arrival step happened while a call was in progress',
         'exhaustive': True,
-        'exhaustive_scope': 'every maximal interleaving of the configurations listed in `families` '
-                            '(%d schedules; %s): hand-off up to %s arrivals x %s receives for threads, 3x3 for '
-                            'asyncio; timeouts; loss of connection with/without reconnection; emit/call retry '
-                            'loops. The start of a call performs no shared access and is issued as soon as the '
-                            'previous call is over, except in the floating-start family'
-                            % (n_tree, ctx.tier, '3' if ctx.thorough else '2', '3' if ctx.thorough else '2'),
-        'families': sorted({c['name'] + '/' + c['variant'] for _, c in fams}),
+        'exhaustive_scope': 'every maximal interleaving of each configuration listed in `configurations` '
+                            '(%d schedules, tier %s): producer/consumer hand-off for 0..3 arrivals x 1..3 receives '
+                            '(threads and asyncio, both tiers); receive(timeout) with up to 2 expiries; loss of '
+                            'connection with / without reconnection around receives; emit/call retry loops '
+                            '(the thorough tier adds the larger timeout and connection configurations). The '
+                            'start of a call performs no shared access and is issued as soon as the previous '
+                            'call is over, except in the floating-start configuration where it floats too'
+                            % (n_tree, ctx.tier),
+        'configurations': {k[4:]: v for k, v in sorted(total.counters.items()) if k.startswith('cfg.')},
         'sampled_beyond_bounds': total.counters.get('family.sampled', 0),
         'model_transitions_visited': len(total.transitions),
         'model_pcs_visited': sorted({t[2] for t in total.transitions}),
